@@ -74,6 +74,11 @@ func (ex *Exec) fmtVal(st *State, v Value, t types.Type, verb byte, top bool) (S
 			}
 			return ex.strConst("<nil>"), fmtOK
 		}
+		if n, ok := x.V.(Native); ok {
+			if r, ok := n.V.(rtypeRef); ok {
+				return ex.strConst(reflTypeString(r.T)), fmtOK
+			}
+		}
 		if verb == 'v' || verb == 's' {
 			for _, mname := range []string{"Error", "String"} {
 				if m := ex.methodOf(x.T, mname); m != nil {
